@@ -977,6 +977,6 @@ func CheckC19(c *C19Case, st *Stats) error {
 
 func init() {
 	Register("C19",
-		"user types embedding List / Object one, two and three levels deep (pointer types; in one case of six a struct type used by value), registered with Init either at every constructor level (the README pattern) or only by the outermost value. The fluent set is computed from the interface types by reflection (methods whose single result is the interface, minus the deriving operations; methods unknown to the harness are reported as unclassified): 19 on List, 14 on Object. Programs of 1-20 fluent calls with arguments valid for the current content cover every branch (Add with 0/1/2 values, Insert inside/at the end, Delete with 0/1/2 indices, Sort on ints/strings/floats, SetTF leaf replace/append/padding/./#/deep, UnsetTF leaf/nested, Set 0/1/2 pairs, Unset present/missing/none, all ForEach variants incl. ForEachAsync); every call must return the identical registered outer value and Ego() too. One case in six starts with 64-1025 elements / fields (beyond any batch or worker limit of the async variants). Then the derived value is stored through one of 17 entry points (once already registered, once registering itself only after it was stored) (constructors incl. typed slices/maps, Add, Insert, Replace, Set, tree-form writes) and read back through Get, GetList/GetObject, GetTF, Slice, Dict, Values, Pluck, SubList, Concat, Filter*, typed slices, every ForEach/Map callback, IndexOf/Contains/KeyOf: always the identical outer value. Every case is non-trivial (a derived value is exercised); distinct = distinct FNV-64a hash of the case JSON. Seven more storage routes: Insert / Replace / Add / list.SetTF / Set into a host that has answered every kind of read (typed slices, typed iteration, filters, tree-form type queries) before the store, and a three-link tree-form path (object and list spelling) that is read, whose middle container is then replaced through its parent's own handle, and that is read again.",
+		"user types embedding List / Object one, two and three levels deep (pointer types; in one case of six a struct type used by value), registered with Init either at every constructor level (the README pattern) or only by the outermost value. The fluent set is computed from the interface types by reflection (methods whose single result is the interface, minus the deriving operations; methods unknown to the harness are reported as unclassified): 19 on List, 14 on Object. Programs of 1-20 fluent calls with arguments valid for the current content cover every branch (Add with 0/1/2 values, Insert inside/at the end, Delete with 0/1/2 indices, Sort on ints/strings/floats, SetTF leaf replace/append/padding/./#/deep, UnsetTF leaf/nested, Set 0/1/2 pairs, Unset present/missing/none, all ForEach variants incl. ForEachAsync); every call must return the identical registered outer value and Ego() too. One case in six starts with 64-1025 elements / fields (beyond any batch or worker limit of the async variants). Then the derived value is stored through one of 17 entry points (once already registered, once registering itself only after it was stored) (constructors incl. typed slices/maps, Add, Insert, Replace, Set, tree-form writes) and read back through Get, GetList/GetObject, GetTF, Slice, Dict, Values, Pluck, SubList, Concat, Filter*, typed slices, every ForEach/Map callback, IndexOf/Contains/KeyOf: always the identical outer value. Every case is non-trivial (a derived value is exercised); distinct = distinct FNV-64a hash of the case JSON. Seven more storage routes: Insert / Replace / Add / list.SetTF / Set into a host that has answered every kind of read (typed slices, typed iteration, filters, tree-form type queries) before the store, and a three-link tree-form path (object and list spelling) that is read, whose middle container is then replaced through its parent's own handle, and that is read again. After every store, tree-form writes and removals that go through the stored value and fail behind it (recovered by the caller) precede the retrievals.",
 		GenC19, CheckC19)
 }
